@@ -62,6 +62,9 @@ def indexHarmless (ps : List Policy) (h : Hello) : Bool :=
     harness, not modelled) -/
 def noBrackets (s : Bytes) : Bool := s.all fun x => x != cLbr && x != cRbr
 
+/-- the site is an exact host name, not a wildcard pattern -/
+def noStar (s : Bytes) : Bool := !s.contains cStar
+
 /-- a `Host` value for which MatchHost's bracket trimming changes the host it routes by
     (the excluded region of the strict SNI-Host clause) -/
 def bracketTrimmed (host : Bytes) : Bool := routingHost host != enforcementHost host
